@@ -188,6 +188,14 @@ def discharge_lib(site, bs):
                  iv.callee(x) is not None and callee_name(iv.callee(x)) == "std::option::Option::unwrap"]
         if cands and all(varpaths.always_variant(iv, x) is True for x in cands):
             return "C12.TUPLEOPT", "on every path that reaches it the element is Some (a failed element makes the accumulator Some, and that path returns Err before any unwrap)"
+        # element steps written with combinators (`T::deserialize_from_value(..).map(Some).or_else(|e| ..)?`): the same with them written out
+        eb = inline.combinators_expanded(b.crate, ib)
+        if eb is not ib:
+            ev = View(eb)
+            cands = [x for x in ev.reach if ev.blocks[x]["term"]["k"] == "call" and ev.blocks[x]["term"].get("at") == at and
+                     ev.callee(x) is not None and callee_name(ev.callee(x)) == "std::option::Option::unwrap"]
+            if cands and all(varpaths.always_variant(ev, x) is True for x in cands):
+                return "C12.TUPLEOPT", "on every path that reaches it the element is Some (combinators written out; a failed element makes the accumulator Some, and that path returns Err before any unwrap)"
     # C12.ARRAY: panic on the Err edge of Vec<T>::try_into::<[T; N]>
     if site.kind == "panic" and root_kind == "array":
         und_ = [False]
